@@ -170,16 +170,21 @@ impl ZoneSetNode {
         mut apex_name: impl Iterator<Item = &'l Label>,
     ) -> Result<(), ZoneTreeModificationError> {
         match apex_name.next() {
-            Some(label) => {
-                if self.children.remove(label).is_none() {
-                    return Err(ZoneTreeModificationError::ZoneDoesNotExist);
+            // Descend to the node of the apex name. Removing the child for
+            // the first label would drop every zone below that label, which
+            // for absolute names is the root label, i.e. all zones.
+            Some(label) => match self.children.get_mut(label) {
+                Some(node) => node.remove_zone(apex_name),
+                None => Err(ZoneTreeModificationError::ZoneDoesNotExist),
+            },
+            None => {
+                if self.zone.take().is_none() {
+                    Err(ZoneTreeModificationError::ZoneDoesNotExist)
+                } else {
+                    Ok(())
                 }
             }
-            None => {
-                self.zone = None;
-            }
         }
-        Ok(())
     }
 }
 
